@@ -107,6 +107,20 @@ def main():
             shutil.rmtree(vm, ignore_errors=True)
             shutil.rmtree(wt, ignore_errors=True)
     print(json.dumps(res))
+    # runs on an archived seeded change refresh its result.json (only complete runs)
+    if mdir.startswith("/verif/seeded/") and "check_rc" in res:
+        try:
+            old = {}
+            rp = os.path.join(mdir, "result.json")
+            if os.path.exists(rp) and open(rp).read().strip():
+                old = json.loads(open(rp).read().strip().splitlines()[-1])
+            # keep demo / package-test confirmations from an earlier complete run when this run skipped them
+            for k in ("demo_fails_with_patch", "demo_passes_without_patch", "pkg_tests_pass", "pkg_tests_s"):
+                if res.get(k) is None and old.get(k) is not None:
+                    res[k] = old[k]
+            open(rp, "w").write(json.dumps(res) + "\n")
+        except Exception:
+            pass
 
 
 main()
